@@ -581,13 +581,17 @@ def streaming_junk_probe(trecv, nrecv, chunk, dt, payload=None):
                 recvs=sum(1 for e in client.log if e[0] == "recv"))
 
 
-def sender_probe(text_len, send_max=512, recv_bytes=2048, trecv=3):
+def sender_probe(text_len, send_max=512, recv_bytes=2048, trecv=3, names=None):
     """The SENDER's side of 'every message the sender reports as sent is decoded and applied': the real _tcp_send
     writes a SYNC whose payload has about text_len characters to a socket whose send() takes at most send_max bytes
     per call (sendall() loops, as the real one does); what reached the wire is then read by a real receiver.
     -> dict(reported = _tcp_send's return value, wire_bytes, message_bytes, delivered)"""
-    snd, _ = make_stepped(2, me=1)
-    rcv, _ = make_stepped(2, me=0, timeout_receive=trecv, recv_bytes=recv_bytes)
+    devs = None
+    if names:       # names: ((urn, id key) of the receiver, (urn, id key) of the sender) - any text without a space
+        from bobocep.dist.device import BoboDevice
+        devs = [BoboDevice(addr="10.0.0.%d" % (i + 1), port=9000 + i, urn=u, id_key=k) for i, (u, k) in enumerate(names)]
+    snd, _ = make_stepped(2, me=1, devices=devs)
+    rcv, _ = make_stepped(2, me=0, devices=devs, timeout_receive=trecv, recv_bytes=recv_bytes)
     runs = [make_run_serial(i, "x" * 40) for i in range(max(1, text_len // 330))]
     payload = payload_json(updated=runs)
     clock = FakeClock(start=1000.0, tick=0.01)
@@ -603,7 +607,7 @@ def sender_probe(text_len, send_max=512, recv_bytes=2048, trecv=3):
     snd._crypto.encrypt = spy
     with installed(net, clock):
         try:
-            rc = snd._tcp_send(snd._devices["dev0"], 0, 0, payload)
+            rc = snd._tcp_send(snd._devices[names[0][0] if names else "dev0"], 0, 0, payload)
         except Exception as e:   # noqa
             rc = "raised %s" % type(e).__name__
     wire = b"".join(b for (_peer, b) in net.sent)
